@@ -167,7 +167,9 @@ func (r *shRender) cond() string {
 	if r.xsShadowed > 0 {
 		return core.Pick(r.style, []string{"nx()", "one > 0 && nx()", "nx() && xs > one", "nx() || xs < zero"})
 	}
-	return core.Pick(r.style, []string{"nx()", "nx()", "one > 0 && nx()", "nx() && n+1 > one", "zero > 0 || nx()", "nx() || n-1 > n", "nx() && xs[0] > one", "!(!nx() || n*2 < one)", "n+1 > one && nx() && one-1 < n"})
+	return core.Pick(r.style, []string{"nx()", "nx()", "one > 0 && nx()", "nx() && n+1 > one", "zero > 0 || nx()", "nx() || n-1 > n", "nx() && xs[0] > one", "!(!nx() || n*2 < one)", "n+1 > one && nx() && one-1 < n",
+		// a negated group whose last operation is == or != and whose first operand may short-circuit
+		"!(!nx() || one != 1)", "!(!nx() && one == 1)", "!(!nx() || zero == 1)", "!(!nx() && n != 0)"})
 }
 
 func (r *shRender) line(ind int, f string, a ...any) {
@@ -291,7 +293,13 @@ func (r *shRender) stmt(s *shNode, ind int) {
 		r.block(body, ind+1)
 		r.line(ind, "}")
 	case "switch":
-		if s.tagged {
+		gtagged := false
+		if s.tagged && r.style != nil && r.style.Chance(1, 4) {
+			// the tag is a package variable that a case expression changes: the tag was evaluated once, before
+			gtagged = true
+			r.line(ind, "gtag = ti()")
+			r.line(ind, "switch gtag {")
+		} else if s.tagged {
 			r.line(ind, "switch ti() {")
 		} else {
 			r.line(ind, "switch {")
@@ -308,6 +316,8 @@ func (r *shRender) stmt(s *shNode, ind int) {
 				}
 			} else {
 				switch {
+				case gtagged:
+					r.line(ind, "case %s:", []string{"tg(7201, 2)", "tg(7202, 1), 7", "tg(7203, 0), tg(7204, 3)"}[caseNo%3])
 				case s.tagged && s.multi && r.style != nil:
 					r.line(ind, "case %s:", [][]string{{"1, 2", "1, one+1", "one, 2", "zero+1, 2, n", "7, one, n-3", "tv(7001, 1), tv(7002, 2)", "tv(7003, 2), 1, tv(7004, 9)"}, {"0", "zero", "one-1, n", "tv(7005, 8), tv(7006, 0)", "tv(7007, 0), tv(7008, 0)"}, {"3", "one+2", "n, 3", "tv(7009, 3), tv(7010, 4)", "tv(7011, 4), tv(7012, 3), n"}}[caseNo%3][r.style.Intn(5)])
 				case s.tagged && s.multi:
@@ -370,6 +380,14 @@ func tb(i int) bool {
 
 func tv(i int, v int) int {
 	tr(i)
+	return v
+}
+
+var gtag int
+
+func tg(i int, v int) int {
+	tr(i)
+	gtag = 1 - gtag
 	return v
 }
 
@@ -482,7 +500,7 @@ func c06Random(rng *core.Rng, size int, ctx shCtx, depth int) []*shNode {
 
 func runC06(r *core.Run) {
 	maxSize := r.N(3, 4)
-	r.SetRule(fmt.Sprintf("shape functions built from T (trace point), break, continue, return, if / if-else / if-else-if-else, the three for forms, range (with and without variables), tagged and tagless switch with 1-2 cases, multi-value cases and default first/middle/last/absent; each shape also in a varied spelling (compound && / || conditions whose other operand is a comparison over locals, case lists mixing literals and expressions of different length, a loop variable redeclared in the body, a range value variable named like the slice ranged over, names declared again inside a default clause, case lists of calls that leave a trace so that the order and number of evaluations shows); every shape of size <= %d is enumerated, larger ones (size <= 25, depth <= 6) sampled; each runs under 4 condition tables. non-trivial = accepted by Go and printed at least one trace line under some table; distinct by shape text", maxSize))
+	r.SetRule(fmt.Sprintf("shape functions built from T (trace point), break, continue, return, if / if-else / if-else-if-else, the three for forms, range (with and without variables), tagged and tagless switch with 1-2 cases, multi-value cases and default first/middle/last/absent; each shape also in a varied spelling (compound && / || conditions whose other operand is a comparison over locals, case lists mixing literals and expressions of different length, a loop variable redeclared in the body, a range value variable named like the slice ranged over, names declared again inside a default clause, case lists of calls that leave a trace so that the order and number of evaluations shows, a package variable as switch tag that the case expressions change, negated && / || groups ending in == or !=); every shape of size <= %d is enumerated, larger ones (size <= 25, depth <= 6) sampled; each runs under 4 condition tables. non-trivial = accepted by Go and printed at least one trace line under some table; distinct by shape text", maxSize))
 	r.Assume("Go toolchain (GOARCH=386) as the reference; conditions come from a bool table through a function with a fuel counter, so every loop terminates on both sides")
 	var cases []packedCase
 	var shapes [][]*shNode
